@@ -1,5 +1,11 @@
 package main
 
+import (
+	"fmt"
+
+	"golang.org/x/tools/go/ssa"
+)
+
 // Exploration-only pseudo properties (not in MANIFEST.json): list instances of the
 // generic rules over more packages, to confirm candidates by reading before a rule
 // is armed for a property.
@@ -14,3 +20,81 @@ func init() {
 	}, "exploration", "")
 }
 
+
+// XLOCK: Engler-style inference of guarded-by candidates. For every first-party struct
+// that has a mutex field, count for each other field the accesses made with some lock
+// of that struct held (intraprocedural may-held) and without. Output is a ranked list
+// to be read by a human; nothing is armed from it automatically.
+func init() {
+	register("XLOCK", func(c *Check) {
+		p := c.P
+		c.Rule("X4", "guarded-by candidates")
+		pkgs := []string{"das", "pruner", "core", "blob", "header", "share/availability/light", "share/availability/full", "share/shwap/p2p/shrex", "share/shwap/p2p/shrex/peers",
+			"share/shwap/p2p/bitswap", "share/shwap/p2p/shrex/shrex_getter", "share/shwap/p2p/shrex/shrexsub", "share/shwap/p2p/discovery", "share/eds", "store", "store/cache", "store/file", "libs/utils", "api/rpc", "share/shwap/getters", "nodebuilder/p2p", "state"}
+		la := newLockAnalysis(p, pkgs...)
+		type key struct{ owner, field string }
+		locked := map[key]int{}
+		total := map[key]int{}
+		sites := map[key][]string{}
+		hasMutex := map[string]bool{}
+		for l := range la.locks {
+			// "pkg.Type.field"
+			if i := lastDot(l); i > 0 {
+				hasMutex[l[:i]] = true
+			}
+		}
+		for _, f := range la.funcs {
+			root := rootFunc(f)
+			if len(root.Name()) >= 3 && (root.Name()[:3] == "New" || root.Name()[:3] == "new") {
+				continue
+			}
+			for _, b := range f.Blocks {
+				for _, ins := range b.Instrs {
+					fa, ok := ins.(*ssa.FieldAddr)
+					if !ok {
+						continue
+					}
+					fv := fieldOf(fa)
+					owner := derefNamed(fa.X.Type())
+					if fv == nil || owner == nil || owner.Obj().Pkg() == nil {
+						continue
+					}
+					on := owner.Obj().Pkg().Name() + "." + owner.Obj().Name()
+					if !hasMutex[on] {
+						continue
+					}
+					if n := derefNamed(fv.Type()); n != nil && (n.Obj().Name() == "Mutex" || n.Obj().Name() == "RWMutex") {
+						continue
+					}
+					k := key{on, fv.Name()}
+					total[k]++
+					held := false
+					for l := range la.mayBefore[ins] {
+						if len(l) > len(on) && l[:len(on)] == on {
+							held = true
+						}
+					}
+					if held {
+						locked[k]++
+					} else {
+						sites[k] = append(sites[k], fnName(f)+" "+p.Pos(fa.Pos()))
+					}
+				}
+			}
+		}
+		for k, t := range total {
+			if locked[k] >= 2 && locked[k] < t && locked[k]*2 >= t {
+				c.Ob("X4", fmt.Sprintf("%s.%s locked %d/%d", k.owner, k.field, locked[k], t), false, "-", fmt.Sprintf("unlocked: %v", sites[k]))
+			}
+		}
+	}, "exploration", "")
+}
+
+func lastDot(s string) int {
+	for i := len(s) - 1; i >= 0; i-- {
+		if s[i] == '.' {
+			return i
+		}
+	}
+	return -1
+}
